@@ -10,6 +10,7 @@ import (
 	"strings"
 	"sync"
 	"text/template"
+	"unicode/utf8"
 
 	"github.com/fatih/color"
 	"github.com/mattn/go-runewidth"
@@ -70,7 +71,7 @@ func (e *Error) GetTemplateFields(source []byte) *ErrorTemplateFields {
 	if len(source) > 0 && e.Line > 0 {
 		if l, ok := e.getLine(source); ok {
 			snippet = l
-			if len(l) >= e.Column-1 {
+			if utf8.RuneCountInString(l) >= e.Column-1 {
 				if i := e.getIndicator(l); i != "" {
 					snippet += "\n" + i
 					end = len(i) // Byte length can be used here because this line only contains ASCII
@@ -107,7 +108,7 @@ func (e *Error) PrettyPrint(w io.Writer, source []byte) {
 		return
 	}
 	line, ok := e.getLine(source)
-	if !ok || len(line) < e.Column-1 {
+	if !ok || utf8.RuneCountInString(line) < e.Column-1 {
 		return
 	}
 
@@ -137,7 +138,15 @@ func (e *Error) getIndicator(line string) string {
 		return ""
 	}
 
-	start := e.Column - 1 // Column is 1-based
+	// Column is 1-based and counted in characters. Convert it to byte offset in the line
+	start, n := len(line), 0
+	for i := range line {
+		if n == e.Column-1 {
+			start = i
+			break
+		}
+		n++
+	}
 
 	// Count width of non-space characters after '^' for underline
 	uw := 0
